@@ -2,7 +2,8 @@ SPECIFICATION GSpec
 CONSTANTS
   MaxN = 5
   MaxOps = 4
-  MaxAttempt = 8
+  MaxAttempt = 1
+  GenAttempts = 8
   Kinds = {"signing", "dkg"}
   Slots = {1}
   AllCalls = FALSE
